@@ -14,7 +14,7 @@ MODULES = {
     "prefilter": dict(file="kani/prefilter.rs", pkg="nucleo-matcher", inject="matcher/src/prefilter.rs", parent="prefilter", needs=["spec"]),
     "exact": dict(file="kani/exact.rs", pkg="nucleo-matcher", inject="matcher/src/exact.rs", parent="exact", needs=["spec"]),
     "greedy": dict(file="kani/greedy.rs", pkg="nucleo-matcher", inject="matcher/src/fuzzy_greedy.rs", parent="fuzzy_greedy", needs=["spec"]),
-    "optimal": dict(file="kani/optimal.rs", pkg="nucleo-matcher", inject="matcher/src/fuzzy_optimal.rs", parent="fuzzy_optimal", needs=["spec"]),
+    "optimal": dict(file="kani/optimal.rs", pkg="nucleo-matcher", inject="matcher/src/fuzzy_optimal.rs", parent="fuzzy_optimal", needs=["spec", "optimal_steps"]),
     "entry": dict(file="kani/entry.rs", pkg="nucleo-matcher", inject="matcher/src/lib.rs", parent="", needs=["spec", "optimal"]),
     "boxcar": dict(file="kani/boxcar.rs", pkg="nucleo", inject="src/boxcar.rs", parent="boxcar"),
     "par_sort": dict(file="kani/par_sort.rs", pkg="nucleo", inject="src/par_sort.rs", parent="par_sort"),
@@ -31,6 +31,9 @@ ATTRS = [
     dict(module="optimal_steps", file="matcher/src/fuzzy_optimal.rs", anchor="fn next_m_cell(", attrs=[
         "kani::requires(bonus <= 10 && m_cell.consecutive_bonus <= 10 && p_score <= verif_optimal_steps::STEP_HEADROOM && m_cell.score <= verif_optimal_steps::STEP_HEADROOM)",
         "kani::ensures(|r| verif_optimal_steps::next_m_cell_post(p_score, bonus, m_cell, r))",
+    ]),
+    dict(module="optimal_steps", file="matcher/src/matrix.rs", anchor="pub(crate) struct ScoreCell {", attrs=[
+        "derive(kani::Arbitrary)",
     ]),
     dict(module="optimal_steps", file="matcher/src/fuzzy_optimal.rs", anchor="fn p_score(", attrs=[
         "kani::ensures(|r| verif_optimal_steps::p_score_post(prev_p_score, prev_m_score, r))",
@@ -199,6 +202,16 @@ for n, lens in ((2, (3, 4, 5)), (3, (4, 5))):
                     need = ((2 * win + 2 * n + 7) // 8) * 8 + 8 * (win + 1 - n) + (win + 1 - n) * n
                     UC("c10-opt-history-" + tag, "optimal", "opt_history_independent::<%s,%d>()" % (shape, ((need + 7) // 8) * 8), {"C10": tier}, "bounded", OPT_FNS,
                        "fuzzy_match_optimal: same score and indices from a fresh matcher and from one whose scratch memory holds arbitrary bytes", unwind=max(h + 3, 7), bound=bound, cost=8, timeout=1500, core=(tag == "h3-n2-s0-k0"))
+# modular variants: calls to next_m_cell are replaced by its function contract (kani::stub_verified).
+# This (a) asserts next_m_cell's precondition (bonus <= 10, run bonus <= 10, scores within the
+# headroom) at its real call sites in score_row and (b) shows the DP's witness/score contract
+# follows from the step contract alone
+for (h, n, st, k) in ((3, 2, 0, 0), (4, 2, 1, 1), (4, 3, 0, 0)):
+    tag = "h%d-n%d-s%d-k%d" % (h, n, st, k)
+    UC("c03-opt-modular-" + tag, "optimal", "opt_witness_and_score::<%d,%d,%d,%d>()" % (h, n, st, k), {"C03": "quick", "C04": "quick", "C10": "quick"}, "bounded", OPT_FNS + ["fuzzy_optimal::next_m_cell (by contract)"],
+       "fuzzy_match_optimal with next_m_cell replaced by its verified contract: the contract's precondition holds at every call site in score_row, and W + score == fzf scheme follow from the contract",
+       unwind=max(h + 3, 7), bound="ASCII window %d, needle %d, %s, 256-byte slab" % (h - st, n, CFGNAME[k]), cost=8, timeout=1500,
+       stub_verified=["crate::fuzzy_optimal::next_m_cell"], core=(tag == "h3-n2-s0-k0"))
 UC("c04-opt-canary", "optimal", "opt_canary()", {"C04": "quick", "C01": "quick", "C10": "quick"}, "bounded", [], "canary", unwind=8, expect="fail", no_cover=True)
 
 EXACT_FNS = ["Matcher::substring_match_1_ascii", "Matcher::substring_match_ascii", "Matcher::substring_match_ascii_with_prefilter", "Matcher::calculate_score"]
